@@ -229,8 +229,11 @@ func verifyFunc(p *Program, fn *ssa.Function, fc *FuncC, timeoutS int, filter0 f
 				var r solveResult
 				if len(os) == 1 {
 					r = solveStaged(prefix+fmt.Sprintf("(assert %s)\n(assert (not %s))\n(check-sat)\n", os[0].okPre, os[0].obSym), timeoutS)
-				} else {
+				} else if whole {
 					r = solveStaged(prefix+goalOf(os, whole)+"(check-sat)\n", timeoutS)
+				} else {
+					// inner node of the bisection: only guides the search, so a short timeout is enough
+					r = solve(prefix+goalOf(os, whole)+"(check-sat)\n", 3, "")
 				}
 				if r.Result == "unsat" || len(os) == 1 {
 					record(os, r)
